@@ -5,7 +5,7 @@
 From Coq Require Import List Arith Bool Relations.
 Import ListNotations.
 From LCC Require Import Base.Util Model.Proj Model.Sched Model.Graph Model.Fixture Model.Deps Proofs.SchedP Proofs.DepsP
-     Proofs.GraphP Proofs.ShapeP.
+     Proofs.GraphP Proofs.ShapeP Model.DepsPred Proofs.DepsPredP.
 
 (* A test never starts before every test it depends on, directly or transitively, and its suite's setup task have
    finished (and been acknowledged by the main thread). *)
@@ -78,3 +78,64 @@ Example C04_witness_graph :
   Some [mkTask KSuiteBegin [5] [] []; mkTask KTest [5; 7] [0] []; mkTask KTest [5; 8] [0; 1] []; mkTask KSuiteEnd [5] [0; 1; 2] [];
         mkTask KSuiteBegin [6] [] []; mkTask KTest [6; 9] [4; 1; 2] []; mkTask KSuiteEnd [6] [4; 5] []].
 Proof. vm_compute. reflexivity. Qed.
+
+(* ---- dependencies declared by predicates (lcc.depends_on(lambda test: ...)): suite/core.py:_normalize_test_dependencies,
+   Model/DepsPred.v. A predicate is modelled by its extension [ext] (the paths it holds for: it can only be observed through
+   the tests it is applied to); [keys] are the keys of all_tests in dict order. The real generator is run on random declared
+   dependencies and compared with [walk] on every run; the projects of the co-simulation declare a third of their
+   dependencies by predicates, some designating several tests and the depending test itself. ---- *)
+
+(* a predicate designates exactly the tests of the project, other than the depending test, that it holds for ... *)
+Theorem C04_predicate_designates : forall self keys ext q,
+  In q (pred_yields self keys ext) <-> In q keys /\ q <> self /\ In q ext.
+Proof. exact pred_yields_iff. Qed.
+Print Assumptions C04_predicate_designates.
+
+(* ... in project order, each once, whatever the order in which the predicate would enumerate them *)
+Theorem C04_predicate_project_order : forall self keys ext,
+  subseq (pred_yields self keys ext) keys /\ (NoDup keys -> NoDup (pred_yields self keys ext)) /\
+  (forall ext', (forall q, In q ext <-> In q ext') -> pred_yields self keys ext = pred_yields self keys ext').
+Proof.
+  intros self keys ext; split; [apply pred_yields_project_order|split].
+  - apply pred_yields_nodup.
+  - apply pred_yields_ext_order_irrelevant.
+Qed.
+Print Assumptions C04_predicate_project_order.
+
+(* the path form the rest of the model works with (tt_deps): a test depends on itself only if it names its own path — a
+   predicate true of the depending test never does that (F26) — and an unknown dependency can only come from a path *)
+Theorem C04_predicate_never_self_never_unknown : forall self keys decl,
+  (In self (expand self keys decl) <-> In (DPath self) decl) /\
+  (forall q, In q (expand self keys decl) -> ~ In q keys -> In (DPath q) decl).
+Proof. intros self keys decl; split; [apply self_dependency_only_by_path|apply expand_known]. Qed.
+Print Assumptions C04_predicate_never_self_never_unknown.
+
+(* the generator: it yields the path form of the declared dependencies, all of it when every declared path is a test of the
+   project, and otherwise what precedes the first unknown path, then raises (what was yielded has been processed already) *)
+Theorem C04_normalize_generator : forall self keys decl,
+  (snd (walk self keys decl) = false ->
+     fst (walk self keys decl) = expand self keys decl /\ (forall p, In (DPath p) decl -> In p keys)) /\
+  (snd (walk self keys decl) = true ->
+     exists d1 p d2, decl = d1 ++ DPath p :: d2 /\ ~ In p keys /\
+       fst (walk self keys decl) = expand self keys d1 /\ (forall p', In (DPath p') d1 -> In p' keys)).
+Proof. intros self keys decl; split; [apply walk_ok|apply walk_error]. Qed.
+Print Assumptions C04_normalize_generator.
+
+(* what a predicate designates is always found by the resolution (Model/Deps.v looks dependencies up in all_tests) *)
+Theorem C04_predicate_dependencies_found : forall (all : dict test) self decl q,
+  (forall p, In (DPath p) decl -> In p (map fst all)) ->
+  In q (expand self (map fst all) decl) -> dict_find all q <> None.
+Proof. exact expanded_dependencies_are_found. Qed.
+Print Assumptions C04_predicate_dependencies_found.
+
+(* sensitivity: without the self-exclusion a predicate true of the depending test makes the test its own dependency *)
+Theorem C04_predicate_without_self_exclusion_refuted :
+  In [6; 9] (pred_yields_no_self_exclusion [[5; 7]; [6; 9]] [[6; 9]; [5; 7]]) /\
+  ~ In [6; 9] (pred_yields [6; 9] [[5; 7]; [6; 9]] [[6; 9]; [5; 7]]).
+Proof. exact no_self_exclusion_refuted. Qed.
+Print Assumptions C04_predicate_without_self_exclusion_refuted.
+Example C04_predicate_witness :
+  let keys := [[5; 7]; [5; 8]; [6; 9]; [6; 10]] in
+  expand [6; 9] keys [DPred [[6; 9]; [6; 10]; [5; 7]; [4; 4]]; DPath [5; 8]] = [[5; 7]; [6; 10]; [5; 8]] /\
+  walk [6; 9] keys [DPred [[6; 10]; [5; 7]]; DPath [1; 1]; DPath [5; 8]] = ([[5; 7]; [6; 10]], true).
+Proof. exact pred_witness. Qed.
